@@ -167,18 +167,23 @@ def selectors_agree(ctx, rep):
     for p in tab["pairs"]:
         F.need(p["writer"]); F.need(p["reader"])
         cur = (led["constants"][p["version_constant"][0]] << 8) | led["constants"][p["version_constant"][1]]
-        w = SEL.render(SEL.selector_map(F, p["writer"], p["quantity"], cur, False))
-        r = SEL.render(SEL.selector_map(F, p["reader"], p["quantity"], cur, True))
-        if len(w) < p["min_entries"] or len(r) < p["min_entries"]:
-            rep.broken("selector pair %s: only %d writer / %d reader entries extracted" % (p["id"], len(w), len(r)))
-        for k, toks in sorted(w.items()):
-            ok = r.get(k) == toks
-            rep.add(Obligation("SELECTORS", p["id"], "writer case `%s`" % k, "-",
+        w = SEL.selector_samples(F, p["writer"], p["quantity"], cur, False)
+        r = SEL.selector_samples(F, p["reader"], p["quantity"], cur, True)
+
+        def decided(m):       # the evaluation actually discriminated between the samples
+            return len({tuple(v) for v in m.values()}) > 1 and all(len(v) <= 2 for v in m.values())
+        if not decided(w) or not decided(r):
+            rep.note("selector pair %s: the evaluation could not pin the decision on one side (quantity renamed or "
+                     "computed elsewhere); not compared on this tree" % p["id"])
+            continue
+        for q in sorted(w):
+            ok = r.get(q) == w[q]
+            rep.add(Obligation("SELECTORS", p["id"], "%s = %d" % (p["quantity"], q), "-",
                                DISCHARGED if ok else VIOLATION,
-                               detail="writer emits %s where %s; reader (current-version path) reads %s for the same case"
-                                      % (toks, k.replace("q", p["quantity"]), r.get(k)) if ok else
-                               "writer emits %s where %s, but the reader's cases are %s: the derived format "
-                               "decision differs between the two sides" % (toks, k.replace("q", p["quantity"]), r)))
+                               detail="writer and reader both use %s" % w[q] if ok else
+                               "for %s = %d the writer emits %s but the reader (current-version path) takes %s: the "
+                               "derived format decision differs between the two sides" % (p["quantity"], q, w[q], r.get(q)),
+                               trivial=q not in (255, 256, 65535, 65536, 2097151, 2097152)))
 
 
 def g1justify(ctx, rep, only_class=None, floor=10):
